@@ -281,7 +281,9 @@ class AbstractFeatureBasedAccountingMethod(AbstractAccountingMethod):
 
         if selected_acquired_lot_amount > ZERO and selected_acquired_lot:
             lot_candidates.clear_partial_amount(selected_acquired_lot)
-            if selected_acquired_lot_amount > taxable_event_amount:
-                self.add_selected_lot_to_heap(lot_candidates.acquired_lot_heap, selected_acquired_lot)
+            # Always push the selected lot back: the caller may not consume it with this taxable event (e.g. earn-typed events
+            # have no acquired lot, and taxable_event_amount is not reliable when the lot is re-sought on a timestamp change).
+            # Exhausted lots are discarded above when they are popped again, because their partial amount is zero.
+            self.add_selected_lot_to_heap(lot_candidates.acquired_lot_heap, selected_acquired_lot)
             return AcquiredLotAndAmount(acquired_lot=selected_acquired_lot, amount=selected_acquired_lot_amount)
         return None
